@@ -127,6 +127,17 @@ CLAIMED.update({
              note=VSS_NOTE, technique='Coq proof (induction over element lists) on a hand-written model of the decoder; differential tie on reference-encoded messages',
              ref='DESIGN.md section 4 C08'),
 })
+CLAIMED.update({
+ 'C14': dict(text='Theorem C14_access (closed): on either host a typed 16/32/64-bit access combined with the byte-order helper regenerated from the corresponding #if branch of Byteorder.h reads/writes '
+                  'the big-endian byte sequence. Theorem C14_all: every modelled operation of C01-C12 (generic and named accessors, initialisers, deprecated API, CAN builders, VSS pad/path/data codec, '
+                  'string arrays) instantiated for a little-endian and for a big-endian host returns equal values and leaves equal bytes on ALL inputs.',
+             note='C14_all depends on functional_extensionality_dep (Coq standard library axiom, Coq.Logic.FunctionalExtensionality), used only to turn the pointwise C14_access into equality of the access functions; '
+                  'everything else is closed under the global context. The big-endian build cannot be executed in this sandbox: the tie runs every command family on the little-endian build AND on a build '
+                  'with the big-endian helper branch forced on this host, against the corresponding (deliberately mismatched) model instance - this detects conversion sites that use the wrong or no helper, '
+                  'which a little-endian run alone cannot see. Hand models as for C06-C10.',
+             technique='Coq proof (both byte orders as a parameter of every model; helper sets regenerated per #if branch); differential tie in two build configurations',
+             ref='DESIGN.md section 4 C14'),
+})
 ALL = ['C%02d' % i for i in range(1, 21)]
 def main():
     checks = []
